@@ -138,7 +138,7 @@ func runWorker(sp *spec, bin string, j workerJob) (*result, error) {
 
 var raceFuncRe = regexp.MustCompile(`(?m)^\s+github\.com/bluenviron/gohlslib/v2(\S*?)\(\)\s*\n\s+(\S+):\d+`)
 
-// raceSignature names the first two library functions of a race report (harness and runtime frames skipped).
+// raceSignature names the innermost library function of each of the two access stacks of a race report.
 func raceSignature(out string) string {
 	if i := strings.Index(out, "WARNING: DATA RACE"); i >= 0 {
 		out = out[i:]
@@ -146,17 +146,14 @@ func raceSignature(out string) string {
 	if i := strings.Index(out, "Goroutine "); i >= 0 {
 		out = out[:i] // only the two access stacks
 	}
-	m := raceFuncRe.FindAllStringSubmatch(out, -1)
-	seen := map[string]bool{}
 	var fs []string
-	for _, x := range m {
-		f, file := strings.TrimPrefix(x[1], "."), x[2]
-		if strings.Contains(file, "zz_verif") || strings.Contains(file, "zzverif") || seen[f] {
-			continue
-		}
-		seen[f] = true
-		fs = append(fs, f)
-		if len(fs) == 2 {
+	for _, stack := range strings.SplitN(out, "Previous ", 2) {
+		for _, x := range raceFuncRe.FindAllStringSubmatch(stack, -1) {
+			f, file := strings.TrimPrefix(x[1], "."), x[2]
+			if strings.Contains(file, "zz_verif") || strings.Contains(file, "zzverif") {
+				continue
+			}
+			fs = append(fs, f)
 			break
 		}
 	}
